@@ -78,6 +78,20 @@ func init() {
 		q, _ := e.divBillion(s, timeNs(args[0]))
 		return q, true
 	})
+	reg("(time.Time).UnixMilli", func(e *Engine, s *State, f *Frame, fn *ssa.Function, args []Value, retIdx int, advance bool) (Value, bool) {
+		c := e.c
+		d := timeNs(args[0])
+		if d.IsConst() {
+			return c.BV(uint64(int64(d.Val)/1000000), 64), true
+		}
+		if x, ok := c.isMulT(d); ok {
+			if _, _, ok := srange(x); ok {
+				// d = x units of 1/8 s = 125 ms each
+				return c.Mul(x, c.BV(125, 64)), true
+			}
+		}
+		return c.Fresh("@ms", 64), true
+	})
 	reg("(time.Duration).Seconds", func(e *Engine, s *State, f *Frame, fn *ssa.Function, args []Value, retIdx int, advance bool) (Value, bool) {
 		d := args[0].(*Term)
 		if d.IsConst() {
